@@ -414,4 +414,18 @@ where
                 rw [← hstep.1]
                 exact C13.free_obj be st s0 e hobj hs
 
+/-! ### the hypotheses are satisfiable: a concrete history on the idnkit back end -/
+
+def demoOps : List Op := [.setTld false, .setRfc 1, .setup, .isEmail [97, 64, 98, 46, 99, 111] ⟨0, none⟩, .errstr,
+  .setRfc 7, .setup, .errstr, .setRfc 0, .setup, .isEmail [97, 64, 91, 49, 46, 50, 46, 51, 46, 52, 93] ⟨0, none⟩]
+
+/-- it contains neither `init` nor `free` and runs without a fault from a freshly initialised object … -/
+example : (∀ op ∈ demoOps, op ≠ .init ∧ op ≠ .free) ∧
+    (match run .idnkit {} (eavInit {}) demoOps with | .ok _ => true | .error _ => false) = true := by
+  constructor
+  · intro op hop
+    simp only [demoOps, List.mem_cons, List.mem_nil_iff, or_false] at hop
+    rcases hop with rfl | rfl | rfl | rfl | rfl | rfl | rfl | rfl | rfl | rfl | rfl <;> decide
+  · decide
+
 end Eav.Props.C13
